@@ -91,6 +91,20 @@ def c13_concrete(which, fmt="stream"):
     return {"violates": bool(bad), "detail": bad}
 
 
+def c13_history(fmt="stream"):
+    """one process writes the same instant under different offsets / zones / folds, in both orders: each value must come back as it was written"""
+    same = [datetime.datetime(2021, 7, 1, 12, 30, 15, 5, tzinfo=UTC), datetime.datetime(2021, 7, 1, 14, 30, 15, 5, tzinfo=datetime.timezone(TD(hours=2))), datetime.datetime(2021, 7, 1, 14, 30, 15, 5, tzinfo=AMS),
+            datetime.datetime(2021, 7, 1, 3, 0, 15, 5, tzinfo=datetime.timezone(TD(hours=-9, minutes=-30)))]
+    folds = [datetime.datetime(2021, 10, 31, 2, 30, tzinfo=AMS, fold=0), datetime.datetime(2021, 10, 31, 2, 30, tzinfo=AMS, fold=1), datetime.datetime(2021, 10, 31, 0, 30, tzinfo=UTC), datetime.datetime(2021, 10, 31, 1, 30, tzinfo=UTC)]
+    for seq in (same, same[::-1], folds, folds[::-1]):
+        for d in seq + seq[:2]:
+            orig, back = _via(fmt, d)
+            bad = _judge(fmt, orig, back)
+            if bad:
+                return {"violates": True, "detail": f"within one process, after writing {[x.isoformat() for x in seq]}: {bad}"}
+    return {"violates": False}
+
+
 def c13_text(text):
     from flow.record.fieldtypes import datetime as FDT
 
@@ -207,6 +221,10 @@ def c13_sweep(seed=0, n=150):
                 return {"violates": True, "detail": f"case {i} ({fmt}, input as {form}, display {F.DISPLAY_TZINFO}): {bad}", "witness": {"seed": seed, "case": i, "value": repr(value), "fmt": fmt}, "cases": cases}
     finally:
         F.DISPLAY_TZINFO = saved
+    for f_ in ("stream", "json", "sqlite", "avro"):
+        h = c13_history(f_)
+        if h["violates"]:
+            return {"violates": True, "detail": h["detail"], "witness": {"history": f_}, "cases": cases}
     res = c13_display()
     if res["violates"]:
         return {"violates": True, "detail": res["detail"], "witness": {"display": True}, "cases": cases}
@@ -242,4 +260,4 @@ def c13_model_conformance(seed=0):
     return {"ok": True, "cases": cases, "violates": False}
 
 
-CALLS = {"c13_roundtrip": c13_roundtrip, "c13_concrete": c13_concrete, "c13_text": c13_text, "c13_epoch": c13_epoch, "c13_display": c13_display, "c13_sweep": c13_sweep, "c13_model_conformance": c13_model_conformance}
+CALLS = {"c13_history": c13_history, "c13_roundtrip": c13_roundtrip, "c13_concrete": c13_concrete, "c13_text": c13_text, "c13_epoch": c13_epoch, "c13_display": c13_display, "c13_sweep": c13_sweep, "c13_model_conformance": c13_model_conformance}
